@@ -799,3 +799,25 @@ fn c15_marshal_rtcp_rr_then_pli_layout() {
     assert!(out[32] == 0x81 && out[33] == 206 && out[34..36] == [0, 2] && out[36..40] == s.to_be_bytes() && out[40..44] == m.to_be_bytes());
     core::mem::forget(pkts);
 }
+
+/// compound round trip: marshal RR(1 block) + PLI, then the real walker parses both sub-packets back
+/// (the framing octets marshal emitted are asserted and re-written as literals for constant propagation)
+#[kani::proof]
+#[kani::unwind(34)]
+#[kani::stub(tracing::callsite::DefaultCallsite::interest, st_interest)]
+#[kani::stub(tracing::__macro_support::__is_enabled, st_enabled)]
+#[kani::stub(tracing::Event::dispatch, st_dispatch)]
+fn c15_rtcp_compound_roundtrip_rr_pli() {
+    let mut b = any_report_block(); b.packets_lost = (b.packets_lost << 8) >> 8;
+    let rr = ReceiverReport { sender_ssrc: kani::any(), report_blocks: vec![b] };
+    let pli = PictureLossIndication { sender_ssrc: kani::any(), media_ssrc: kani::any() };
+    let pkts = [RtcpPacket::ReceiverReport(rr), RtcpPacket::PictureLossIndication(pli)];
+    let out = marshal_rtcp_packets(&pkts).unwrap();
+    assert!(out.len() == 44 && out[0..4] == [0x81, 201, 0, 7] && out[32..36] == [0x81, 206, 0, 2]);
+    let mut a = [0u8; 44];
+    a.copy_from_slice(&out);
+    a[0] = 0x81; a[1] = 201; a[2] = 0; a[3] = 7; a[32] = 0x81; a[33] = 206; a[34] = 0; a[35] = 2;
+    let back = parse_rtcp_packets(&a, None).unwrap();
+    assert!(back.len() == 2 && back[0] == pkts[0] && back[1] == pkts[1]);
+    core::mem::forget(back); core::mem::forget(pkts);
+}
